@@ -333,7 +333,7 @@ def run_case(case):
         dcids = [b"", bytes(range(0xA0, 0xA8)), bytes(range(0xA0, 0xB4)), bytes(range(0xA0, 0xA1)), by2.ccid[:-1] + bytes([by2.ccid[-1] ^ 1]) if by2.ccid else b"\x00",
                  by2.scid[:4]]
         scids = [b"", bytes(range(0xC0, 0xC8))]
-        versions = [1, 0, 0x6B3343CF, 0x0A0A0A0A]
+        versions = [1, 0, 0x6B3343CF, 0x0A0A0A0A, 2, 3, 4, 0xFFFFFFFF]
         bodies = [b"", bytes(range(0xA0, 0xB5)), b"\x00" + bytes(range(1, 40)), bytes([0x40, 0x64]) + bytes(100), bytes(1180)]
         fbs = [0xC0, 0xC3, 0xD1, 0xE2, 0xF0, 0xFF, 0x80, 0xCC] if tier == "quick" else list(range(0x80, 0x100, 5)) + [0xFF]
         combos = [(fb, v, dc, sc, bi, di) for fb in fbs for v in versions for dc in range(len(dcids)) for sc in range(len(scids))
